@@ -287,10 +287,14 @@ class SymInt:
         return "SymInt(%s)" % self.t
 
     def __str__(self):
-        return str(cur().concretize(self.t))
+        # rendering (log and error messages) must not fork: a value that is meant to become input text is concretised
+        # explicitly by the harness with int()
+        t = z3.simplify(self.t)
+        return str(t.as_long()) if z3.is_int_value(t) else "<%s>" % t
 
     def __format__(self, spec):
-        return format(cur().concretize(self.t), spec)
+        t = z3.simplify(self.t)
+        return format(t.as_long(), spec) if z3.is_int_value(t) else "<%s>" % t
 
     # -- arithmetic ----------------------------------------------------------------------
     def _bin(self, o, f, rev=False):
